@@ -294,3 +294,14 @@ func tail(s string, n int) string {
 }
 
 var _ = io.EOF
+
+func readJSONFile(path string, v interface{}) error {
+	b, err := os.ReadFile(path)
+	if err != nil {
+		return Troublef("%v", err)
+	}
+	if err := json.Unmarshal(b, v); err != nil {
+		return Troublef("%s: %v", path, err)
+	}
+	return nil
+}
